@@ -189,6 +189,9 @@ impl AllocationQueue {
 
     pub fn resume(&mut self) {
         self.state = AllocationQueueState::Active;
+        // A queue that was paused because of too many failures would otherwise
+        // be paused again before it can attempt a single submission
+        self.rate_limiter.reset_fails();
     }
 
     pub fn manager(&self) -> &ManagerType {
@@ -528,6 +531,12 @@ impl RateLimiter {
             }
             None => RateLimiterStatus::Ok,
         }
+    }
+
+    /// The queue was resumed, forget the failures that happened before the pause.
+    pub fn reset_fails(&mut self) {
+        self.allocation_fails = 0;
+        self.submission_fails = 0;
     }
 
     fn increase_delay(&mut self) {
